@@ -339,6 +339,17 @@ def run(ctx):
         "str.upper() maps no non-ASCII character to 'U', 'N' or 'C' (probed on every run; used by the model of ntpath.splitroot)",
     ]
     ctx.proof("C28")
+    # translator tie: the current source of split_template_path, as a term of Lib/PyLdr, is proved equal to the
+    # model for every convention and every name
+    sys.path.insert(0, os.path.join(lib.ROOT, "gen"))
+    import ldr_translate
+    try:
+        ok, out = ctx.coq_obligation("Gen_ldr", ldr_translate.emit(lib.SRC), n_obligations=2)
+        if ok:
+            ctx.trusted.append("Gen_ldr (split_template_path source = model): " + " ".join(out.split()))
+    except ldr_translate.Untranslatable as e:
+        ctx.obligations += 2
+        ctx.broken.append(f"translator gen/ldr_translate.py: split_template_path left the translatable vocabulary: {e}")
     if not _HOOKED[0]:
         sys.addaudithook(_audit)
         _HOOKED[0] = True
